@@ -20,6 +20,12 @@
 //	           other side's writes of this phase arrive, then Close with that data unread
 //	           (kernel answers RST).  a/u: this side writes nothing in that phase;
 //	           u: the other side writes 1..65536 bytes in that phase
+//	    a last token Pq or Pr = post-mortem probe, for scripts in which the target end is
+//	           gone for good (f, a or u) while the client never shut: the client keeps
+//	           writing into the former tunnel every 40 ms — Pq a well-formed proxy request
+//	           "GET http://<canary>/from-dead-tunnel", Pr raw bytes without a newline — until a
+//	           write fails (the proxy closed the client connection) or the grace period ends;
+//	           a canary origin records whether anything reached it
 //	FAIL <via>   CONNECT to a port nobody listens on (D direct, M through a real downstream
 //	             martian, X the downstream proxy itself is unreachable)
 //
@@ -30,7 +36,9 @@
 //	      seen, X = read error (acceptable instead of E only once the other end aborted),
 //	      '#' alone = this end closed its socket), finally R1|R0|R-
 //	      (both proxies' handlers returned within the grace period; R- = not applicable
-//	      because an end never shut)
+//	      because an end never shut); with a probe, before R: W1|W0 (a client write failed =
+//	      the proxy closed the client connection, within the grace period) and Q0|Q1 (the
+//	      canary origin was contacted: bytes written into the dead tunnel were taken for HTTP)
 //	FAIL: s<status> W1|W0
 //
 // Timing: a checkpoint waits until everything an ideal tunnel would have delivered has
@@ -81,6 +89,7 @@ type tcase struct {
 	via           string
 	early, banner int
 	earlyShut     bool
+	probe         byte // 0, 'q', 'r'
 	phases        []phase
 }
 
@@ -143,7 +152,12 @@ func parseTun(in []string) (*tcase, error) {
 	if tc.banner, err = strconv.Atoi(in[3][1:]); err != nil || tc.banner < 0 || tc.banner > 1<<20 {
 		return nil, fmt.Errorf("banner")
 	}
+	if n := len(in); n > 4 && (in[n-1] == "Pq" || in[n-1] == "Pr") {
+		tc.probe = in[n-1][1]
+		in = in[:n-1]
+	}
 	cshut, tshut := false, false
+	tgone := false
 	for _, tok := range in[4:] {
 		i := strings.IndexByte(tok, '/')
 		if i < 1 || tok[0] != 'c' || i+1 >= len(tok) || tok[i+1] != 't' {
@@ -171,7 +185,11 @@ func parseTun(in []string) (*tcase, error) {
 		}
 		cshut = cshut || ph.c.shut != 0
 		tshut = tshut || ph.t.shut != 0
+		tgone = tgone || ph.t.shut == 'f' || ph.t.shut == 'a' || ph.t.shut == 'u'
 		tc.phases = append(tc.phases, ph)
+	}
+	if tc.probe != 0 && (cshut || !tgone) {
+		return nil, fmt.Errorf("probe needs an open client and a target that is gone")
 	}
 	return tc, nil
 }
@@ -550,6 +568,53 @@ func runTun(tc *tcase, grace, headWait time.Duration) (out []string, timingOnly 
 			return out, timingOnly
 		}
 	}
+	if tc.probe != 0 {
+		// the tunnel is dead but the client keeps its connection and goes on writing
+		cl := listen()
+		var hits int32
+		go func() {
+			for {
+				c, err := cl.Accept()
+				if err != nil {
+					return
+				}
+				atomic.AddInt32(&hits, 1)
+				go func() {
+					c.SetDeadline(time.Now().Add(2 * time.Second))
+					readHead(bufio.NewReader(c))
+					c.Write([]byte("HTTP/1.1 200 OK\r\nContent-Length: 0\r\n\r\n"))
+					c.Close()
+				}()
+			}
+		}()
+		msg := []byte("ZZZZZZZZ")
+		if tc.probe == 'q' {
+			h := cl.Addr().String()
+			msg = []byte("GET http://" + h + "/from-dead-tunnel HTTP/1.1\r\nHost: " + h + "\r\n\r\n")
+		}
+		wfail := false
+		for end := time.Now().Add(grace); time.Now().Before(end); {
+			cconn.SetWriteDeadline(time.Now().Add(time.Second))
+			if _, err := cconn.Write(msg); err != nil {
+				wfail = true
+				break
+			}
+			time.Sleep(40 * time.Millisecond)
+		}
+		time.Sleep(100 * time.Millisecond)
+		cl.Close()
+		if wfail {
+			out = append(out, "W1")
+		} else {
+			out = append(out, "W0")
+			timingOnly = true
+		}
+		if atomic.LoadInt32(&hits) == 0 {
+			out = append(out, "Q0")
+		} else {
+			out = append(out, "Q1")
+		}
+	}
 	if cshut && tshut {
 		if closeWithin(proxies, grace) {
 			out = append(out, "R1")
@@ -592,6 +657,9 @@ func ideal(tc *tcase) []string {
 		ts := snap{n: int64(cn), eof: ef(cshut), local: b2(tfull)}
 		cs := snap{n: int64(tn), eof: ef(tshut), local: b2(cfull)}
 		out = append(out, ts.tok("t")+"/"+cs.tok("c"))
+	}
+	if tc.probe != 0 {
+		out = append(out, "W1", "Q0")
 	}
 	if cshut && tshut {
 		out = append(out, "R1")
